@@ -75,10 +75,10 @@ class Gen:
             P = dict(vo=vo, rs=rng.choice([0.0, _r(_lg(rng, 1e-3, 0.3), 3)]))
             self.vest[name] = vo
         elif cls == "PLoad":
-            P = dict(pwr=_r(_lg(rng, 1e-5, 0.3) * av, 4), pwrs=rng.choice([0.0, _r(_lg(rng, 1e-7, 1e-4) * av, 3), _r(_lg(rng, 1e-4, 1e-2) * av, 3)]),
+            P = dict(pwr=_r(_lg(rng, 1e-5, 0.3) * av, 4) if rng.random() > 0.04 else 0.0, pwrs=rng.choice([0.0, _r(_lg(rng, 1e-7, 1e-4) * av, 3), _r(_lg(rng, 1e-4, 1e-2) * av, 3)]),
                      rt=rng.choice([0.0, _r(_lg(rng, 1, 100), 3)]), loss=rng.random() < 0.2)
         elif cls == "ILoad":
-            P = dict(ii=_r(_lg(rng, 1e-6, 0.3), 4), iis=rng.choice([0.0, _r(_lg(rng, 1e-7, 1e-4), 3)]),
+            P = dict(ii=_r(_lg(rng, 1e-6, 0.3), 4) if rng.random() > 0.04 else 0.0, iis=rng.choice([0.0, _r(_lg(rng, 1e-7, 1e-4), 3)]),
                      rt=rng.choice([0.0, _r(_lg(rng, 1, 100), 3)]), loss=rng.random() < 0.2)
         elif cls == "RLoad":
             P = dict(rs=_r(av / _lg(rng, 1e-5, 0.3), 4), rt=rng.choice([0.0, _r(_lg(rng, 1, 100), 3)]), loss=rng.random() < 0.2)
@@ -86,7 +86,7 @@ class Gen:
             P = dict(rs=rng.choice([0.0, _r(_lg(rng, 1e-3, 0.08 * av / imax), 3)]), rt=rng.choice([0.0, _r(_lg(rng, 1, 50), 3)]))
             self.vest[name] = vin
         elif cls == "VLoss":
-            vd = _r(rng.uniform(0.0, min(0.7, 0.08 * av)), 3)
+            vd = _r(rng.uniform(0.0, min(0.7, 0.08 * av)), 3) if rng.random() > 0.08 else 0.0     # (a drop of exactly 0 is legal)
             P = dict(vdrop=vd, rt=rng.choice([0.0, _r(_lg(rng, 1, 50), 3)]))
             if tab():
                 P["vdrop"] = table(rng, "vdrop", lambda io, vi: vd * (0.6 + 0.5 * io / imax) + 0.001 * vi, av, imax)
@@ -95,7 +95,7 @@ class Gen:
             vo = _r(_lg(rng, 0.8, 48.0), 4)
             if rng.random() < self.p_neg:
                 vo = -vo
-            e0 = rng.uniform(0.6, 0.98)
+            e0 = rng.uniform(0.6, 0.98) if rng.random() > 0.05 else 1.0
             P = dict(vo=vo, eff=_r(e0, 3), iq=rng.choice([0.0, _r(_lg(rng, 1e-6, 1e-3), 3)]),
                      iis=rng.choice([0.0, _r(_lg(rng, 1e-7, 1e-5), 3)]), rt=rng.choice([0.0, _r(_lg(rng, 1, 50), 3)]))
             if tab():
@@ -111,7 +111,11 @@ class Gen:
             if tab():
                 g0 = _lg(rng, 1e-6, 5e-3)
                 P["ig"] = table(rng, "ig", lambda io, vi: g0 * (1 + 3 * io / imax) * (1 + 0.01 * vi), av, imax)
-            self.vest[name] = math.copysign(min(abs(vo), max(av - P["vdrop"], 0.0)), vo) if vin else 0.0
+            if vin and rng.random() < 0.05:
+                # a regulator without head-room at all: |Vin| <= vdrop < |vo|, its output is 0 V although it is on
+                P["vo"] = math.copysign(_r(1.6 * av, 4), vo)
+                P["vdrop"] = _r(1.2 * av, 4)
+            self.vest[name] = math.copysign(min(abs(P["vo"]), max(av - P["vdrop"], 0.0)), vo) if vin else 0.0
         elif cls in ("PSwitch", "PMux"):
             rs = rng.choice([0.0, _r(_lg(rng, 1e-3, 0.06 * av / imax), 3)])
             P = dict(rs=rs, ig=rng.choice([0.0, _r(_lg(rng, 1e-7, 1e-3), 3)]), iis=rng.choice([0.0, _r(_lg(rng, 1e-7, 1e-5), 3)]),
@@ -148,6 +152,8 @@ class Gen:
                 P["rs"] = _r((P["rs"] or 0.05) * f, 4)
             elif cls == "VLoss" and not isinstance(P["vdrop"], dict):
                 P["vdrop"] = _r((P["vdrop"] or 0.1) * f, 4)
+        if "rt" in P and cls != "Source" and rng.random() < 0.03:
+            P["rt"] = _r(_lg(rng, 1e8, 1e10), 3)
         # the number type of a parameter must not matter: now and then an int (when the value is integral) or a numpy float
         for k, v in list(P.items()):
             if isinstance(v, float) and rng.random() < 0.06:
